@@ -90,6 +90,9 @@ type World struct {
 	// URLAuthority, when set, makes Serve send absolute-form requests: URL.Host carries this authority, which routing
 	// must ignore (the Host field decides)
 	URLAuthority string
+	// HTTP10, when set, makes Serve send requests that declare HTTP/1.0 (routing and the router's own answers do not
+	// depend on the protocol version a request announces).
+	HTTP10 bool
 	// ConnHook, when set, prepares the connection of the next Serve call (one shot).
 	ConnHook func(*Conn)
 }
@@ -208,7 +211,10 @@ func (w *World) NewTag() int {
 	return t
 }
 
-// Handler returns the handler of a route with the given tag.
+// Handler returns the handler of a route with the given tag. Not inlined: every handler the harness registers is a
+// closure of ONE function (one code pointer, as with an application's handler constructor), differing in what it captured.
+//
+//go:noinline
 func Handler(tag int) fox.HandlerFunc {
 	return func(c fox.Context) {
 		l := LogOf(c)
@@ -222,7 +228,9 @@ func Handler(tag int) fox.HandlerFunc {
 	}
 }
 
-// RouteMW returns the route-specific middleware with the given id.
+// RouteMW returns the route-specific middleware with the given id (not inlined, see Handler).
+//
+//go:noinline
 func RouteMW(id int) fox.MiddlewareFunc {
 	return func(next fox.HandlerFunc) fox.HandlerFunc {
 		return func(c fox.Context) {
@@ -657,6 +665,9 @@ func (w *World) Serve(p Probe, rawPath, rawQuery string, inner func(c fox.Contex
 		// absolute-form request target: the URL carries an authority of its own, the Host field stays what it is
 		req.URL.Scheme, req.URL.Host = "http", w.URLAuthority
 		req.RequestURI = "http://" + w.URLAuthority + req.RequestURI
+	}
+	if w.HTTP10 {
+		req.Proto, req.ProtoMajor, req.ProtoMinor = "HTTP/1.0", 1, 0
 	}
 	conn := NewConn()
 	if h := w.ConnHook; h != nil {
